@@ -13,8 +13,8 @@ RULE = ("loop-free closed graphs on n<=4 cells (n<=5 thorough) x outlet lists wi
         "eam_plus flow into another cell unless a pit), ucat_area, ucat_volume, subgrid_rivlen/rivavg/rivmed; "
         "non-trivial = some catchment has more than one cell")
 ASSUMPTIONS = ["outlet pixels pairwise distinct (documented domain; duplicates are exercised in correspondence only)",
-               "areas / hand / depths are integers in the model; the least-squares slope value is not modelled",
-               "the outlet-pixel clause (inside own cell) is checked on the implementation's output only until C09's model covers it"]
+               "areas / hand / depths are integers in the model; the least-squares kernel is modelled over exact rationals (binary64 results compared to 1e-9), the slope of a whole segment through the API is only called, not compared",
+               "the outlet-pixel clause (inside own cell) is checked on the implementation's output here; the theorem is C09's outlet_pixel_spec"]
 
 
 def _outs(ds, rng):
